@@ -81,6 +81,7 @@ fn class_weights(mode: Prop, kind: Kind, mbuff_len: usize) -> Vec<(Class, u32)> 
             w.push((Class::StackLeakRead, 2));
             w.push((Class::LongAlu, 1));
             w.push((Class::FailInCallee, 1));
+            w.push((Class::PeekOtherProgram, 2));
             w.push((Class::Mixed, 5));
             if kind != Kind::Fixed {
                 // on the fixed-metadata VM r1 is the VM's private buffer: not comparable across VMs
@@ -258,6 +259,7 @@ pub fn generate(rng: &mut Rng, mode: Prop) -> Scenario {
                 let beyond = *rng.pick(&[0usize, 0, 1, 7, 8, 64, 1000, 30000]);
                 gen_fixed_beyond_end(tag, d, e, beyond)
             }
+            Class::PeekOtherProgram => gen_peek_other_program(tag, rng.below(i as u64) as usize), // an earlier pool entry
             Class::Mixed => gen_mixed(rng, tag, kind, p0len, mbuff_len),
             Class::LongAlu => gen_long_alu(rng, tag),
             Class::FailInCallee => gen_fail_in_callee(tag),
